@@ -116,3 +116,15 @@ claim(
     "mode density 1e-3, mean 2e-3 sd, variance 4e-3, shape 5e-3 / 2e-2); one open known finding (KDE mode search confined to the 20% sample HDI).",
     "Hypothesis PBT with self-consistency oracles (independent quadrature) and metamorphic shift/scale relations",
 )
+claim(
+    "C20",
+    "Generated-input search: (a) piecewise_linear_sample on uniform / geometric / wildly non-uniform grids with flat, linear, spiky and "
+    "zero-containing tables: i.i.d. draws (seeded through the harness) KS-tested against the exact piecewise-quadratic CDF of the "
+    "interpolant, draws inside the grid and never inside dead cells, invalid tables raise; (b) the inverse transform against the closed-form "
+    "CDF of a linear density on both branches and across the |dh|=1e-5 switch; (c) get_conditionals on correlated Gaussians, products of "
+    "gamma/log-normal/beta/logistic and a rotated banana: grid ascending and inside the bounds, Simpson-normalised, matching the true "
+    "conditional (same posterior evaluated along the line, normalised by adaptive quadrature) and covering the region above e^-7.9 of "
+    "the peak; (d) conditional_sample inside the bounds and KS-consistent with the tabulated conditionals.",
+    "KS alarms at p < 5e-13; tabulated conditional within 3e-3 of the peak; log-normal sigma <= 0.5; x within 1e-12 of 1 excluded from the transform check.",
+    "Hypothesis PBT with exact-CDF KS tests and line-evaluation oracle",
+)
